@@ -228,7 +228,12 @@ def rule_r3_text(text):
         cnt[0] += 1
         i = "__vu_i%d" % cnt[0]
         decl, var, rng = m.group(1), m.group(2), m.group(3).strip()
-        return "for (size_t %s = 0; %s < (%s).size(); ++%s) { %s%s = (%s)[%s];" % (
+        # `auto` is not understood by the front end: spell the element type out (the copy / reference semantics of the
+        # declaration are kept: `auto item` still copies, `auto &item` still refers)
+        decl = re.sub(r'\bauto\b', "__typeof__(*(%s).begin())" % rng, decl)
+        # positional access through begin(): the same text for vector, string, list, set and map models (iterators are
+        # element pointers); `c[i]` would be a key lookup on a map
+        return "for (size_t %s = 0; %s < (%s).size(); ++%s) { %s%s = (%s).begin()[%s];" % (
             i, i, rng, i, decl, var, rng, i)
     out = _R3.sub(rep, text)
     return out, cnt[0]
